@@ -1289,7 +1289,7 @@ theorem mem_pairsOf {α : Type} : ∀ {l : List α} {p : α × α}, p ∈ pairsO
         exact ⟨List.mem_cons_of_mem _ this.1, List.mem_cons_of_mem _ this.2⟩
 
 theorem segDist_eq (g : GGrid) (a b : Pt) : segDist g a b =
-    (((cellOf g b).1 : Int) - ((cellOf g a).1 : Int)).natAbs + (((cellOf g b).2 : Int) - ((cellOf g a).2 : Int)).natAbs := rfl
+    (((gridCellOf g b).1 : Int) - ((gridCellOf g a).1 : Int)).natAbs + (((gridCellOf g b).2 : Int) - ((gridCellOf g a).2 : Int)).natAbs := rfl
 
 theorem chainOf_ok {g : GGrid} {eps : Rat} {poi : List Nat} {verts : List Pt} {start : Nat} {seg : Nat × Nat}
     (H : GenPos g eps (verts.getD seg.1 (0, 0)) (verts.getD seg.2 (0, 0))) :
